@@ -141,9 +141,36 @@ type Caps struct {
 	Quiet    time.Duration // a quiet-state invariant must hold within this time
 	StopCall time.Duration // Stop / Shutdown must return within this time
 	Ctx      time.Duration // deadline of the context given to Shutdown
-	// NoReclaim: after the stopping call only nbio's log is looked at (the goroutine / descriptor
-	// oracle is C18's; the C10 part saves its time).
+	// NoReclaim: C18's oracles are not evaluated (connection count at quiet points, goroutines and
+	// descriptors after the stopping call): the C10 part saves their time and their caps.
 	NoReclaim bool
+	// Own is the class of anomalies the calling check reports ("c18" / "c10"). A wait whose failure
+	// would be an anomaly of ANOTHER subject gets the full cap only until two such waits have
+	// expired in this process; after that it gets one second (the anomaly is only counted by this
+	// check, the run is marked incomplete, and a changed tree that breaks the other subject does not
+	// make this check crawl through one full cap per case).
+	Own string
+}
+
+var otherSlow int32
+
+func (w *world) capFor(class string, base time.Duration) time.Duration {
+	if class == w.caps.Own || w.caps.Own == "" {
+		return base
+	}
+	if atomic.LoadInt32(&otherSlow) >= 2 {
+		return time.Second
+	}
+	return base
+}
+
+// expired books a wait of another subject that ran into its cap.
+func (w *world) expired(class string) {
+	if class != w.caps.Own && w.caps.Own != "" {
+		if atomic.AddInt32(&otherSlow, 1) > 2 {
+			w.capHit("a wait of another check's subject (" + class + ") expired under the reduced cap")
+		}
+	}
 }
 
 // DefaultCaps are used by the checks.
@@ -497,22 +524,24 @@ func (w *world) quiet(after string) {
 		return
 	}
 	want := w.wantOnline()
-	if !WaitFor(w.caps.Quiet, func() bool { return w.engine.VerifOnline() == want }) {
+	if cp := w.capFor("c18", w.caps.Quiet); !w.caps.NoReclaim && !WaitFor(cp, func() bool { return w.engine.VerifOnline() == want }) {
 		got := w.engine.VerifOnline()
 		dir := "more"
 		if got < want {
 			dir = "fewer"
 		}
+		w.expired("c18")
 		w.obs("c18", "online-count-"+dir+"-than-open-connections",
 			"after %s the history is quiet and %d connection(s) are open from the peers' point of view, but engine.Online() stays %d for %v (stale or missing entries in engine.conns: Shutdown waits for this count to reach zero)",
-			after, want, got, w.caps.Quiet)
+			after, want, got, cp)
 	}
 	if lm := w.engine.VerifListenerMux(); lm != nil {
 		wa := w.wantOnlineA()
-		if !WaitFor(w.caps.Quiet, func() bool { return lm.VerifOnlineA() == wa }) {
+		if cp := w.capFor("c10", w.caps.Quiet); !WaitFor(cp, func() bool { return lm.VerifOnlineA() == wa }) {
+			w.expired("c10")
 			w.obs("c10", "mixed-blocking-half-count-wrong",
 				"after %s %d open connection(s) are served by the blocking half, but the listener mux counts %d for %v (the `decrease` accounting decides which half serves the next connection)",
-				after, wa, lm.VerifOnlineA(), w.caps.Quiet)
+				after, wa, lm.VerifOnlineA(), cp)
 		}
 	}
 }
@@ -673,12 +702,16 @@ func syscallIoctlInt(fd int, req uintptr) (int, error) {
 // readResponse reads one response for r; ok=false means the case cannot continue on c.
 func (w *world) readResponse(c *conn, r reqSpec, histCloses bool) (ok bool) {
 	backlog := w.c.Cfg.SndBuf > 0 && r.n > w.c.Cfg.SndBuf
-	_ = c.cli.SetReadDeadline(time.Now().Add(w.caps.Step))
+	cp := w.capFor("c10", w.caps.Step)
+	_ = c.cli.SetReadDeadline(time.Now().Add(cp))
 	resp, err := http.ReadResponse(c.br, &http.Request{Method: r.method()})
 	if err != nil {
 		if isTimeout(err) {
-			w.obs("c10", "response-missing"+qual(c), "request %s on c%d (%s): no response within %v, the connection is open and the peer is waiting", r.tag, c.id, strings.TrimSpace(strings.SplitN(r.head(), "\r\n", 2)[0]), w.caps.Step)
-			w.capHit("response " + r.tag)
+			w.expired("c10")
+			w.obs("c10", "response-missing"+qual(c), "request %s on c%d (%s): no response within %v, the connection is open and the peer is waiting", r.tag, c.id, strings.TrimSpace(strings.SplitN(r.head(), "\r\n", 2)[0]), cp)
+			if w.caps.Own != "c10" {
+				w.capHit("response " + r.tag)
+			}
 		} else {
 			w.obs("c10", fmt.Sprintf("response-missing-or-malformed%s history-closes=%v backlog=%v", qual(c), histCloses, backlog),
 				"request %s on c%d: reading the response failed: %v", r.tag, c.id, err)
@@ -694,9 +727,12 @@ func (w *world) readResponse(c *conn, r reqSpec, histCloses bool) (ok bool) {
 	w.res.count("responses", 1)
 	switch {
 	case err != nil && isTimeout(err):
+		w.expired("c10")
 		w.obs("c10", fmt.Sprintf("response-body-stalled%s history-closes=%v backlog=%v", qual(c), histCloses, backlog),
-			"request %s on c%d: body stalled after %d of %d bytes for %v", r.tag, c.id, len(body), r.n, w.caps.Step)
-		w.capHit("response body " + r.tag)
+			"request %s on c%d: body stalled after %d of %d bytes for %v", r.tag, c.id, len(body), r.n, cp)
+		if w.caps.Own != "c10" {
+			w.capHit("response body " + r.tag)
+		}
 		w.dead = true
 		return false
 	case err != nil:
@@ -736,7 +772,8 @@ func (w *world) peerSawEnd(c *conn) {
 
 // expectEnd reads to the end of the stream; extra bytes before it are reported by `extra`.
 func (w *world) expectEnd(c *conn, why string, class, sigNotClosed string, extraIsAnomaly bool) bool {
-	_ = c.cli.SetReadDeadline(time.Now().Add(w.caps.Quiet))
+	cp := w.capFor(class, w.caps.Quiet)
+	_ = c.cli.SetReadDeadline(time.Now().Add(cp))
 	var extra []byte
 	buf := make([]byte, 4096)
 	for {
@@ -746,7 +783,8 @@ func (w *world) expectEnd(c *conn, why string, class, sigNotClosed string, extra
 		}
 		if err != nil {
 			if isTimeout(err) {
-				w.obs(class, sigNotClosed, "c%d: %s, but the peer has not seen the end of the stream for %v", c.id, why, w.caps.Quiet)
+				w.expired(class)
+				w.obs(class, sigNotClosed, "c%d: %s, but the peer has not seen the end of the stream for %v", c.id, why, cp)
 				return false
 			}
 			break
@@ -941,11 +979,13 @@ func (w *world) doWS(c *conn, kind string) {
 		if !w.write(c, []byte(req)) {
 			return
 		}
-		_ = c.cli.SetReadDeadline(time.Now().Add(w.caps.Step))
+		cp := w.capFor("c10", w.caps.Step)
+		_ = c.cli.SetReadDeadline(time.Now().Add(cp))
 		resp, err := http.ReadResponse(c.br, &http.Request{Method: "GET"})
 		if err != nil {
 			if isTimeout(err) {
-				w.obs("c10", "response-missing"+qual(c), "WebSocket handshake on c%d: no response within %v", c.id, w.caps.Step)
+				w.expired("c10")
+				w.obs("c10", "response-missing"+qual(c), "WebSocket handshake on c%d: no response within %v", c.id, cp)
 				w.capHit("handshake response")
 			} else {
 				w.obs("c10", "ws-handshake-failed"+qual(c), "WebSocket handshake on c%d: reading the response failed: %v", c.id, err)
@@ -1076,7 +1116,7 @@ func (w *world) doPeer(c *conn, kind string) {
 				}
 				if streak >= 5 {
 					_ = c.cli.SetReadDeadline(time.Now())
-					if ok := <-ended; ok {
+					if ok := <-ended; ok || w.probeEnd(c) {
 						w.peerSawEnd(c)
 						return
 					}
@@ -1106,6 +1146,20 @@ func (w *world) readToEnd(c *conn, cap time.Duration) chan bool {
 		}
 	}()
 	return ended
+}
+
+// probeEnd asks the kernel directly whether the end of c's stream can be read now: a read with a
+// fresh deadline always begins with a read system call, so an end of stream that is already there
+// is seen even if the runtime's poller has not delivered it to a parked reader yet.
+func (w *world) probeEnd(c *conn) bool {
+	buf := make([]byte, 4096)
+	for {
+		_ = c.cli.SetReadDeadline(time.Now().Add(time.Millisecond))
+		_, err := c.br.Read(buf)
+		if err != nil {
+			return !isTimeout(err)
+		}
+	}
 }
 
 // window is the observation window of the early-exit rules (see awaitClosedByEngine): long enough
@@ -1456,7 +1510,7 @@ func (w *world) awaitClosedByEngine(c *conn, kind string) {
 			}
 			if parked >= 5 {
 				_ = c.cli.SetReadDeadline(time.Now()) // end the reader
-				if ok := <-ended; ok {
+				if ok := <-ended; ok || w.probeEnd(c) {
 					w.peerSawEnd(c)
 					return
 				}
